@@ -24,9 +24,6 @@ pub fn int(n: impl TryInto<i128>) -> Sexp {
 pub fn boolean(b: bool) -> Sexp {
     Sexp::Int(if b { 1 } else { 0 })
 }
-pub fn list(items: Vec<Sexp>) -> Sexp {
-    Sexp::List(items)
-}
 /// `(head item*)`
 pub fn tagged(head: &str, items: impl IntoIterator<Item = Sexp>) -> Sexp {
     let mut v = vec![sym(head)];
@@ -82,7 +79,7 @@ impl Sexp {
         if self.head() == Some(head) {
             Ok(&self.as_list()?[1..])
         } else {
-            Err(format!("expected ({head} …), found {self}"))
+            Err(format!("expected ({head} ...), found {self}"))
         }
     }
 }
